@@ -1,0 +1,8 @@
+//go:build !verif
+
+// Package verifhook provides scheduling hooks for model-based verification of the station. Without
+// the `verif` build tag every hook is an empty function that the compiler removes.
+package verifhook
+
+// Yield marks a point between two critical sections. It does nothing unless built with -tags verif.
+func Yield(point string, id any) {}
